@@ -24,6 +24,8 @@ typedef struct rd {
 	int       synced;       /* expect is meaningful */
 	uint64_t  expect;       /* next stream offset this reader must see */
 	int       drop_told;    /* a non-zero dropped amount (or a resynchronisation) was reported since the last successful read */
+	int       fresh;        /* no successful read since r_buf_rpos_init */
+	uint64_t  init_head;    /* writer's head when the reader was initialised */
 	uint64_t  resync_head;  /* stream offset of the writer's head when that report was made: nothing written later may be skipped */
 	uint64_t  reads, bytes;
 } rd;
@@ -147,6 +149,7 @@ static void reader_step(const item_t *it) {
 		size_t back = (size_t)item_get(it, "back", 0);
 		if (0 != r_buf_rpos_init(RBUF, &r->rpos, back)) { sim_violation("rb-reader", "r_buf_rpos_init failed"); return; }
 		r->inited = 1; r->synced = 0; r->drop_told = 0;
+		r->fresh = 1; r->init_head = S_off;   /* a reader that joins now is owed everything committed from now on */
 		sim_probe("c19.rpos_init");
 		if (item_get(it, "reinit", 0)) return;
 	}
@@ -210,6 +213,12 @@ static void reader_step(const item_t *it) {
 				prev = so;
 			}
 		}
+		if (r->fresh && !r->drop_told && first > r->init_head && !(g_variable && g_kf_pre)) {
+			reader_fail_or_known(r, id, round_before, first, "rb-skip-after-init", "reader %d: initialised when the writer stood at stream offset %llu; its first read starts at %llu: %llu byte(s) committed after it joined were skipped without a report", id,
+			    (unsigned long long)r->init_head, (unsigned long long)first, (unsigned long long)(first - r->init_head));
+			if (sim_violated()) return;
+		}
+		r->fresh = 0;
 		if (r->synced) {
 			if (first < r->expect) {
 				reader_fail_or_known(r, id, round_before, first, "rb-repeat", "reader %d: stream position went backwards (got offset %llu, already consumed up to %llu)", id, (unsigned long long)first, (unsigned long long)r->expect);
@@ -255,7 +264,7 @@ static void reader_step(const item_t *it) {
 	}
 	return;
 resync:
-	r->synced = 0; r->drop_told = 0;
+	r->synced = 0; r->drop_told = 0; r->fresh = 0;
 	r_buf_rpos_inc(RBUF, &r->rpos, total);
 }
 
